@@ -7,6 +7,7 @@ T1_MODULES = {
     "C04": ["vt.contracts.utils_maxcounter", "vt.contracts.legs_rules"],
     "C06": ["vt.contracts.core_slicing"],
     "C07": ["vt.contracts.utils_maxcounter"],
+    "C09": ["vt.contracts.con_cost"],
     "C18": ["vt.contracts.legs_rules"],
 }
 
